@@ -43,7 +43,9 @@ def poly_hash(a, b, vals):
 class Rule:
     """rule := hash:k:a:b:off | probe:k:a:b:off | counter:k:off | nks:R | total:k:R"""
 
-    def __init__(self, spec, scale=1, clobber=False, mixret=False):
+    def __init__(self, spec, scale=1, clobber=False, mixret=False, nested=None):
+        self.nested = nested        # dict(dim, shape, dtype, r, T, nb): every few calls the rule runs another evolution of the library itself
+        self.depth = 0
         self.spec = spec
         self.scale = scale
         self.clobber = clobber      # overwrite the neighbourhood array after reading it (a rule may do that)
@@ -54,7 +56,35 @@ class Rule:
         self.count = 0
         self.log = []
 
+    def reenter(self):
+        """A user's rule may itself use the library (a coupled second automaton, a look-ahead): a nested evolution of the same
+        or of another shape must not disturb the one in progress."""
+        import cellpylib as cpl
+        nd = self.nested
+        self.depth += 1
+        try:
+            variant = (len(self.log) // 3) % 2
+            if nd["dim"] == 1:
+                N = nd["shape"][0] if variant == 0 else nd["shape"][0] + 1
+                r = nd["r"] if variant == 0 else 1
+                ca = (np.arange(N).reshape(1, N) % 2).astype(nd["dtype"])
+                T = nd["T"] if variant == 0 else 3
+                ts = T if not nd.get("dyn") else (lambda a, tt: tt < T)
+                cpl.evolve(ca, timesteps=ts, apply_rule=lambda nn, cc, tt: nn[0], r=min(r, N), memoize=nd.get("memo", False))
+            else:
+                R, C = nd["shape"] if variant == 0 else (nd["shape"][0] + 1, nd["shape"][1])
+                r = nd["r"] if variant == 0 else min(nd["r"] + 1, R, C)
+                ca = (np.arange(R * C).reshape(1, R, C) % 2).astype(nd["dtype"])
+                T = nd["T"] if variant == 0 else 3
+                ts = T if not nd.get("dyn") else (lambda a, tt: tt < T)
+                cpl.evolve2d(ca, timesteps=ts, apply_rule=lambda nn, cc, tt: int(np.ma.getdata(nn).ravel()[0]), r=r,
+                             neighbourhood=nd["nb"] if variant == 0 else "von Neumann", memoize=nd.get("memo", False))
+        finally:
+            self.depth -= 1
+
     def __call__(self, n, c, t):
+        if self.nested and self.depth == 0 and len(self.log) % 3 == 1:
+            self.reenter()
         vals, shape = _cells(n, self.scale)
         cc = tuple(int(x) for x in c) if isinstance(c, (tuple, list, np.void, np.ndarray)) else int(c)
         self.log.append((vals, shape, cc, int(t)))
@@ -147,7 +177,7 @@ class Rule:
         return out
 
     def fresh(self):
-        return Rule(self.spec, self.scale, clobber=self.clobber, mixret=self.mixret)
+        return Rule(self.spec, self.scale, clobber=self.clobber, mixret=self.mixret, nested=self.nested)
 
 
 class Pred:
